@@ -1,5 +1,7 @@
 import CCT.Model.Signing
 import CCT.Model.Keys
+import CCT.Model.Construct
+import CCT.Model.Cli
 import CCT.Ref.Crypto
 import Std.Data.HashMap
 /-!
@@ -358,6 +360,58 @@ def handle (memo : Memo) (line : String) : Memo × String :=
            | .error e => (memo, "E " ++ e.name))
         | some (_, []) => (memo, "E ArgError")
         | _ => (memo, "X bad-args")
+      | _ => (memo, "X bad-args")
+    | "cli" =>
+      -- cli verify <trusted bytes | -> <untrusted bytes | ->      cli sign <repodata bytes | -> <key text as s-codes | ->
+      let optBytes (t : Tok) : Option (Option Bytes) := if t == "-" then some none else (parseHexBytes t).map some
+      let showOutcome (o : CliOutcome) : String :=
+        match o with
+        | .returned none => "R None"
+        | .returned (some n) => "R " ++ toString n
+        | .raised e => "E " ++ e.name
+        | .usage => "U"
+      match args with
+      | ["verify", t, u] =>
+        match optBytes t, optBytes u with
+        | some tb, some ub =>
+          let memo' := match ub with
+            | some b => (match loadBytes b with | some uj => warm (warm memo uj true) uj false | none => memo)
+            | none => memo
+          let (o, ok) := cliVerifyMetadata (memoCrypto memo') tb ub
+          (memo', showOutcome o ++ (if ok then " success" else " -") ++ " exit=" ++ toString (exitStatus .script o))
+        | _, _ => (memo, "X bad-args")
+      | ["sign", r, k] =>
+        match optBytes r with
+        | some rb =>
+          let kt : Option (Option PStr) := if k == "-" then some none else (match k.toList with | 's' :: rest => (parseCodes (String.ofList rest)).map some | _ => none)
+          match kt with
+          | some ktv =>
+            let (o, f) := cliSignArtifacts C rb ktv
+            (memo, showOutcome o ++ " exit=" ++ toString (exitStatus .script o) ++ " file=" ++ (match f with | some b => hexStr b | none => "-"))
+          | none => (memo, "X bad-args")
+        | none => (memo, "X bad-args")
+      | _ => (memo, "X bad-args")
+    | "build" =>
+      -- build <which> <y m d H M S>x2 <args as a list value, "O99" standing for an omitted optional argument>
+      match args with
+      | which :: y1 :: m1 :: d1 :: h1 :: mi1 :: s1 :: y2 :: m2 :: d2 :: h2 :: mi2 :: s2 :: rest =>
+        match [y1, m1, d1, h1, mi1, s1, y2, m2, d2, h2, mi2, s2].mapM (·.toNat?) with
+        | some [a1, a2, a3, a4, a5, a6, b1, b2, b3, b4, b5, b6] =>
+          let nowA : DateTime := ⟨a1, a2, a3, a4, a5, a6⟩
+          let nowB : DateTime := ⟨b1, b2, b3, b4, b5, b6⟩
+          let rec parseArgs (fuel : Nat) (ts : List Tok) (acc : List PyVal) : Option (List PyVal) :=
+            match fuel, ts with
+            | _, [] => some acc.reverse
+            | 0, _ => none
+            | f+1, ts => match parseVal ts with
+              | some (v, r) => parseArgs f r (v :: acc)
+              | none => none
+          let opt (v : PyVal) : Option PyVal := match v with | .opaque 99 => none | x => some x
+          match which, parseArgs (rest.length + 1) rest [] with
+          | "delegating", some [ty, dels, ver, ts, ex] => (memo, showResJ (buildDelegatingMd nowA nowB ty (opt dels) ver (opt ts) (opt ex)))
+          | "root", some [ver, rk, rt, kk, kt, ts, ex] => (memo, showResJ (buildRootMd nowA nowB ver rk rt kk kt (opt ts) (opt ex)))
+          | _, _ => (memo, "X bad-args")
+        | _ => (memo, "X bad-clock")
       | _ => (memo, "X bad-args")
     | "key" =>
       match args with
